@@ -104,11 +104,11 @@ Qed.
 Lemma filter_nonempty_idem (l : list bytes) : filter nonempty (filter nonempty l) = filter nonempty l.
 Proof. induction l as [|d l IH]; [reflexivity|]. destruct d; cbn [filter nonempty]; [exact IH|]. rewrite IH. reflexivity. Qed.
 
-Lemma normalize_fixed n : filter nonempty (n_data n) = n_data n -> normalize n = n.
-Proof. intros H. destruct n as [h p x d mt xs]. unfold normalize. cbn in *. rewrite H. reflexivity. Qed.
+Lemma normalize_fixed n : cut_data (n_data n) = n_data n -> normalize n = n.
+Proof. intros H. destruct n as [h p x d mt xs]. unfold normalize. cbn [n_hdr n_phsf n_extra n_data n_meta n_xattrs] in *. rewrite H. reflexivity. Qed.
 
 Lemma edit_rel_normal c sl n n' : edit_rel c sl (normalize n) n' -> normalize n' = n'.
-Proof. intros (_ & _ & Hd & _). apply normalize_fixed. rewrite Hd. unfold normalize. cbn [n_data]. apply filter_nonempty_idem. Qed.
+Proof. intros (_ & _ & Hd & _). apply normalize_fixed. rewrite Hd. unfold normalize. cbn [n_data]. apply cut_data_idem. Qed.
 
 Lemma written_normals_read ns : Forall writable_normal ns ->
   wf_archive (write_raw_archive 0 (map ser_normal ns)) = true /\
@@ -374,7 +374,6 @@ Hypothesis E_len : forall a k b, len16 b -> len16 (E a k b).
 Hypothesis compress_law : forall c lvl ws, decompress c (concat (compress c lvl ws)) = Ok (concat ws).
 Hypothesis compress_det : forall c lvl (ws ws' : list bytes), concat ws = concat ws' ->
   concat (compress c lvl ws) = concat (compress c lvl ws').
-Hypothesis compress_fits : compress_small compress.
 Variable lvl : N.
 Variable ctx : cctx.
 Hypothesis ctx_strict : strict_ctx ctx.
@@ -403,7 +402,7 @@ Lemma edit_rel_read_norm c sl m n' x : edit_rel c sl m n' -> reads_any m -> read
   read_entry_x pw rb (normalize n') = Ok (xentry_of_normal (e_data x) n') /\ same_content x (xentry_of_normal (e_data x) n').
 Proof.
   intros (H1 & H2 & H3 & _) RB Hx. unfold CreateTransportFacts.read_entry_x in *.
-  assert (CC : concat (n_data (normalize n')) = concat (n_data m)) by (unfold normalize; cbn [n_data]; rewrite concat_filter_nonempty, H3; reflexivity).
+  assert (CC : concat (n_data (normalize n')) = concat (n_data m)) by (unfold normalize; cbn [n_data]; rewrite concat_cut_data, H3; reflexivity).
   assert (DEq : decode_normal E D decompress verify (normalize n') pw (rb (normalize n')) = decode_normal E D decompress verify m pw (rb m)).
   { unfold Pipeline.decode_normal. change (n_hdr (normalize n')) with (n_hdr n'). change (n_phsf (normalize n')) with (n_phsf n').
     rewrite H1, H2. apply decode_stream_cut_indep; [exact CC|apply RB; exact CC|apply RB; reflexivity]. }
